@@ -616,6 +616,437 @@ Example C11_ex_mean_normal_range :
   | S754_finite _ m ex => (-1074 <= ex)%Z /\ (4503599627370496 <= Z.pos m)%Z | _ => False end.
 Proof. vm_compute. split; discriminate. Qed.
 
+(* ================= AUDIT (notes/C11.md "Audit matrix"; proofs in Proofs/Audit11.v, Proofs/Audit11Float.v) ========= *)
+(* What the clause-by-clause audit added.  (A1) the Number helpers of tea-dtype/src/number.rs that no model contained
+   (Model/AggNumber.v): n_add / n_prod, Kahan's kh_sum, floor / ceil, to / fromas, and min_with / max_with on EVERY
+   operand (NaN included); (A2) iter_traits.rs vfold2 / vapply; (A3) extrema and first arg-extrema with the order
+   hypotheses weakened from a strict total order to a strict WEAK order (so binary64 with +0 / -0 is an instance) and,
+   for "the arg-extreme points at the extreme", dropped altogether; (A4) the plain family totally (first / last / n_sum,
+   arg-extrema on integers and reals, min / max on input WITH NaN); (A5) zip truncation and permutation invariance of
+   the masked aggregations; (A6) nullness below the thresholds for every carrier, and what a valid NaN (non-canonical
+   input) does; (A7)-(A8) binary64 instances.                                                                           *)
+From Tevec Require Import Spec.ExtremaOrd Model.AggNumber Proofs.OrderXR Proofs.Audit11 Proofs.Audit11Float.
+From Tevec Require Run.RunC11.
+
+(* ---- (A1) Number::n_add / n_prod / kh_sum / floor / ceil / min_with / max_with / to / fromas ------------------------ *)
+(* one call: only `other` is tested; a null `other` changes neither the value nor the counter *)
+Theorem C11_number_n_add_n_prod : forall {A} {NA : Num A} {DN : IsNone A A} (self other : A) (n : nat),
+  (is_none other = true -> n_add self other n = (self, n) /\ n_prod self other n = (self, n)) /\
+  (is_none other = false -> n_add self other n = (nadd self other, S n) /\ n_prod self other n = (nmul self other, S n)).
+Proof.
+  intros. destruct (n_add_cases self other n) as [a1 a2]. destruct (n_prod_cases self other n) as [p1 p2].
+  split; intros H; split; auto.
+Qed.
+(* accumulating a series with them: the sum / product of the non-null elements in order, and their number — for the
+   float-like dictionary (NaN null: f32, f64) and the never-null one (i32, i64, u64, usize), every carrier *)
+Theorem C11_number_n_add_fold : forall {A} {NA : Num A} (init : A) (xs : list A),
+  n_add_fold (DN := IsNone_float) init xs
+    = (fold_left nadd (vals (DT := IsNone_float) xs) init, length (vals (DT := IsNone_float) xs)) /\
+  n_prod_fold (DN := IsNone_float) init xs
+    = (fold_left nmul (vals (DT := IsNone_float) xs) init, length (vals (DT := IsNone_float) xs)) /\
+  n_add_fold (DN := IsNone_plain) init xs = (fold_left nadd xs init, length xs) /\
+  n_prod_fold (DN := IsNone_plain) init xs = (fold_left nmul xs init, length xs).
+Proof.
+  intros. split; [apply (n_add_fold_spec unwrap_id_float)|]. split; [apply (n_prod_fold_spec unwrap_id_float)|].
+  rewrite (n_add_fold_spec (DN := IsNone_plain) unwrap_id_plain), (n_prod_fold_spec (DN := IsNone_plain) unwrap_id_plain).
+  rewrite vals_plain. split; reflexivity.
+Qed.
+(* ... which is exactly what vsum computes (agg.rs:236 uses vfold_n; Number::n_add is the same step) *)
+Theorem C11_number_n_add_fold_is_vsum : forall {A} {NA : Num A} {DN : IsNone A A} (xs : list A),
+  unwrap_id DN ->
+  vsum xs = if (1 <=? snd (n_add_fold nzero xs))%nat then Some (fst (n_add_fold nzero xs)) else None.
+Proof. intros A NA DN xs H. apply (n_add_fold_is_vsum H). Qed.
+
+(* Kahan's step on the exact carriers: the compensation is identically 0 and the running sum is the plain sum *)
+Theorem C11_number_kh_sum_exact : forall (zs : list Z) (V : list R),
+  kh_fold (NA := AggNumZ) zs = (sumZ zs, 0%Z) /\ kh_fold (map Some V) = (Some (sumR V), Some 0%R).
+Proof. intros. split; [apply kh_fold_Z|apply kh_fold_XR]. Qed.
+(* kh_sum has NO null test: one NaN element poisons the sum and the compensation for good *)
+Theorem C11_number_kh_sum_nan : forall xs : list XR, In None xs -> kh_fold xs = (None, None).
+Proof. exact kh_fold_XR_nan. Qed.
+(* at binary64: the step operation by operation; the compensation is effective (1 + 2^-53 + 2^-53) and NaN poisons *)
+Theorem C11_number_kh_sum_binary64 : forall s v c : PrimFloat.float,
+  kh_sum s v c = ((s + (v - c))%float, (((s + (v - c)) - s) - (v - c))%float).
+Proof. exact kh_sum_binary64. Qed.
+Theorem C11_number_kh_sum_binary64_witness :
+  fst (kh_fold [1; 0x1p-53; 0x1p-53]%float) = 0x1.0000000000001p+0%float /\
+  fold_left PrimFloat.add [1; 0x1p-53; 0x1p-53]%float zero = 1%float /\
+  PrimFloat.is_nan (fst (kh_fold [1; nan; 2]%float)) = true /\ PrimFloat.is_nan (snd (kh_fold [1; nan; 2]%float)) = true.
+Proof. exact kh_fold_binary64_witness. Qed.
+
+(* floor / ceil: the identity on the integer types (trait defaults); on floats the integer-valued floor / ceiling, a null
+   stays null, ceil x = -floor(-x) *)
+Theorem C11_number_floor_ceil : forall (z : Z) (a : XR),
+  (number_floor (NR := NumRoundZ) z = z /\ number_ceil (NR := NumRoundZ) z = z) /\
+  match a with
+  | None => number_floor (NR := NumRoundXR) a = None /\ number_ceil (NR := NumRoundXR) a = None
+  | Some x => exists f c : Z,
+      number_floor (NR := NumRoundXR) a = Some (IZR f) /\ number_ceil (NR := NumRoundXR) a = Some (IZR c) /\
+      (IZR f <= x < IZR f + 1)%R /\ (IZR c - 1 < x <= IZR c)%R /\ c = (- Rfloor (- x))%Z
+  end.
+Proof. intros. split; [apply number_floor_ceil_Z|apply number_floor_XR]. Qed.
+
+(* min_with / max_with: Rmin / Rmax, Z.min / Z.max on numbers ... *)
+Theorem C11_number_min_max_with : forall (x y : R) (a b : Z),
+  min_with (Some x) (Some y) = Some (Rmin x y) /\ max_with (Some x) (Some y) = Some (Rmax x y) /\
+  min_with (NA := AggNumZ) a b = Z.min a b /\ max_with (NA := AggNumZ) a b = Z.max a b.
+Proof.
+  intros. destruct (min_max_with_XR x y) as [h1 h2]. destruct (min_max_with_Z a b) as [h3 h4]. repeat split; assumption.
+Qed.
+(* ... and with a NaN operand (any carrier whose `<` is false on NaN): a NaN `other` is ignored, a NaN `self` STAYS —
+   the helpers are not symmetric on nulls, which is why vmin / vmax seed their fold with the first VALID element *)
+Theorem C11_number_min_max_with_nan : forall {A} {NA : Num A},
+  (forall a b, nisnan a = true -> nltb a b = false) -> (forall a b, nisnan b = true -> nltb a b = false) ->
+  forall s o : A,
+  (nisnan o = true -> min_with s o = s /\ max_with s o = s) /\
+  (nisnan s = true -> min_with s o = s /\ max_with s o = s).
+Proof. intros A NA H1 H2 s o. apply (min_max_with_nan H1 H2). Qed.
+Theorem C11_number_min_max_with_nan_f64 : forall s o : XR,
+  (o = None -> min_with s o = s /\ max_with s o = s) /\ (s = None -> min_with s o = s /\ max_with s o = s).
+Proof.
+  intros s o. destruct (min_max_with_nan xlt_nan_l xlt_nan_r s o) as [H1 H2].
+  split; intros ->; [apply H1|apply H2]; reflexivity.
+Qed.
+(* on non-NaN operands of a weakly ordered carrier: a lower / upper bound of both, and always one of the operands *)
+Theorem C11_number_min_max_with_ordered : forall {A} {NA : Num A}, OrdLaws A -> forall s o : A,
+  num_ok s -> num_ok o ->
+  (nltb s (min_with s o) = false /\ nltb o (min_with s o) = false /\
+   nltb (max_with s o) s = false /\ nltb (max_with s o) o = false) /\
+  (min_with s o = s \/ min_with s o = o) /\ (max_with s o = s \/ max_with s o = o).
+Proof.
+  intros A NA OL s o Hs Ho. split; [apply (min_max_with_ord OL Hs Ho)|]. split.
+  - destruct (min_with_cases s o) as [[_ H]|[_ H]]; [right|left]; exact H.
+  - destruct (max_with_cases s o) as [[_ H]|[_ H]]; [right|left]; exact H.
+Qed.
+Theorem C11_number_min_max_with_binary64 : forall s o : PrimFloat.float,
+  (PrimFloat.is_nan o = true -> min_with s o = s /\ max_with s o = s) /\
+  (PrimFloat.is_nan s = true -> min_with s o = s /\ max_with s o = s) /\
+  (PrimFloat.is_nan s = false -> PrimFloat.is_nan o = false ->
+     (s <? min_with s o)%float = false /\ (o <? min_with s o)%float = false /\
+     (max_with s o <? s)%float = false /\ (max_with s o <? o)%float = false) /\
+  (min_with s o = s \/ min_with s o = o) /\ (max_with s o = s \/ max_with s o = o).
+Proof. exact min_max_with_binary64. Qed.
+(* the carriers the ordered statements are about *)
+Theorem C11_ordered_carriers : OrdLaws XR /\ @OrdLaws Z AggNumZ /\ OrdLaws PrimFloat.float /\ ~ OrdStrict PrimFloat.float.
+Proof.
+  split; [exact ordlaws_XR|]. split; [exact ordlaws_AggZ|]. split; [exact ordlaws_F64|exact Proofs.CmpOrdFloat.f64_not_strict].
+Qed.
+
+(* to::<T>() is Cast::<T>::cast, fromas is to in the other direction (the casts themselves: property C15) *)
+Theorem C11_number_to_fromas : forall {S U : Type} (cast : U -> S) (v : U),
+  number_fromas cast v = number_to cast v /\ number_to cast v = cast v.
+Proof. intros. apply number_to_fromas. Qed.
+
+(* ---- (A2) iter_traits.rs: vfold2, vapply ---------------------------------------------------------------------- *)
+Theorem C11_vfold2 : forall {A A2 T T2 U} {DT : IsNone T A} {DT2 : IsNone T2 A2}
+    (f : U -> T -> T2 -> U) (init : U) (xs : list T) (ys : list T2),
+  vfold2 f init xs ys = fold_left (fun acc p => f acc (fst p) (snd p)) (complete_pairs xs ys) init /\
+  vfold2 f init xs ys = vfold2 f init (firstn (Nat.min (length xs) (length ys)) xs)
+                                      (firstn (Nat.min (length xs) (length ys)) ys).
+Proof. intros. split; [apply vfold2_spec|apply vfold2_truncates]. Qed.
+Theorem C11_vapply : forall {A T U} {DT : IsNone T A} (f : U -> A -> U) (init : U) (xs : list T),
+  vapply f init xs = fold_left f (vals xs) init /\ vapply f init xs = snd (vapply_n f init xs).
+Proof. intros. apply vapply_spec. Qed.
+(* vcov's accumulation loop is such a two-series null-skipping fold *)
+Theorem C11_vcov_is_vfold2 : forall {A T T2 F} {DT : IsNone T A} {DT2 : IsNone T2 A} {NF : Num F}
+    (tof : A -> F) (xs : list T) (ys : list T2) s0,
+  fold_left (cov_step tof) (combine xs ys) s0 = vfold2 (cov_acc tof) s0 xs ys.
+Proof. intros. apply cov_fold_is_vfold2. Qed.
+
+(* ---- (A3) extrema and first arg-extrema ------------------------------------------------------------------------ *)
+(* NO hypothesis (C11_argmin_points_at_min asked for a strict total order and all_ok): for every carrier, dictionary
+   and input the arg-extreme is None exactly when there is no valid element (then the extreme is None too) and
+   otherwise indexes a VALID element whose value is the extreme returned by vmin / vmax *)
+Theorem C11_arg_points_at_extreme_unconditional : forall {A T} {NA : Num A} {DT : IsNone T A} (xs : list T),
+  match vargmin xs with
+  | None => vals xs = [] /\ vmin xs = None
+  | Some i => exists v, nth_error xs i = Some v /\ not_none v = true /\ vmin xs = Some (unwrap v)
+  end /\
+  match vargmax xs with
+  | None => vals xs = [] /\ vmax xs = None
+  | Some i => exists v, nth_error xs i = Some v /\ not_none v = true /\ vmax xs = Some (unwrap v)
+  end.
+Proof. intros. split; [apply vargmin_points_at_vmin_any|apply vargmax_points_at_vmax_any]. Qed.
+
+(* any weakly ordered carrier (reals, integers, binary64), valid elements not NaN: least / greatest valid element *)
+Theorem C11_extrema_ordered_carrier : forall {A} {NA : Num A}, OrdLaws A ->
+  forall {T} {DT : IsNone T A} (xs : list T), valid_ok xs ->
+  match vmin xs with
+  | None => vals xs = []
+  | Some m => In m (vals xs) /\ forall x, In x (vals xs) -> nltb x m = false
+  end /\
+  match vmax xs with
+  | None => vals xs = []
+  | Some m => In m (vals xs) /\ forall x, In x (vals xs) -> nltb m x = false
+  end.
+Proof. intros A NA OL T DT xs H. split; [apply (vmin_ord OL H)|apply (vmax_ord OL H)]. Qed.
+(* index (nulls counted) of the FIRST extreme: nothing is below it, everything valid before it is strictly above *)
+Theorem C11_arg_extrema_ordered_carrier : forall {A} {NA : Num A}, OrdLaws A ->
+  forall {T} {DT : IsNone T A} (xs : list T), valid_ok xs ->
+  match vargmin xs with
+  | None => vals xs = []
+  | Some i => exists v, nth_error xs i = Some v /\ not_none v = true /\
+      (forall j w, nth_error xs j = Some w -> not_none w = true -> nltb (unwrap w) (unwrap v) = false) /\
+      (forall j w, j < i -> nth_error xs j = Some w -> not_none w = true -> nltb (unwrap v) (unwrap w) = true)
+  end /\
+  match vargmax xs with
+  | None => vals xs = []
+  | Some i => exists v, nth_error xs i = Some v /\ not_none v = true /\
+      (forall j w, nth_error xs j = Some w -> not_none w = true -> nltb (unwrap v) (unwrap w) = false) /\
+      (forall j w, j < i -> nth_error xs j = Some w -> not_none w = true -> nltb (unwrap w) (unwrap v) = true)
+  end.
+Proof. intros A NA OL T DT xs H. split; [apply (vargmin_ord OL H)|apply (vargmax_ord OL H)]. Qed.
+(* permutation invariance over a weak order: null together, otherwise EQUIVALENT extremes (`==`) *)
+Theorem C11_perm_extrema_ordered_carrier : forall {A} {NA : Num A}, OrdLaws A ->
+  forall {T} {DT : IsNone T A} (xs ys : list T), valid_ok xs -> Permutation xs ys ->
+  match vmin xs, vmin ys with
+  | None, None => True | Some a, Some b => neqb a b = true | _, _ => False end /\
+  match vmax xs, vmax ys with
+  | None, None => True | Some a, Some b => neqb a b = true | _, _ => False end.
+Proof. intros A NA OL T DT xs ys H HP. apply (vmin_vmax_perm_ord OL H HP). Qed.
+
+(* binary64 (f64 series: every dictionary over Coq's float whose valid elements are not NaN — IsNoneF64 always is) *)
+Theorem C11_valid_ok_f64 : forall xs : list PrimFloat.float, valid_ok (DT := IsNoneF64) xs.
+Proof. exact valid_ok_f64. Qed.
+Theorem C11_valid_ok_optf64 : forall xs : list (option PrimFloat.float),
+  valid_ok (DT := IsNoneOptF64) xs <-> (forall x, In (Some x) xs -> PrimFloat.is_nan x = false).
+Proof. exact valid_ok_optf64_iff. Qed.
+Theorem C11_vmin_vmax_binary64 : forall {T} {DT : IsNone T PrimFloat.float} (xs : list T), valid_ok xs ->
+  match vmin xs with
+  | None => vals xs = []
+  | Some m => In m (vals xs) /\ forall x, In x (vals xs) -> (x <? m)%float = false
+  end /\
+  match vmax xs with
+  | None => vals xs = []
+  | Some m => In m (vals xs) /\ forall x, In x (vals xs) -> (m <? x)%float = false
+  end.
+Proof. intros T DT xs H. apply (vmin_vmax_binary64 H). Qed.
+Theorem C11_vargmin_vargmax_binary64 : forall {T} {DT : IsNone T PrimFloat.float} (xs : list T), valid_ok xs ->
+  match vargmin xs with
+  | None => vals xs = []
+  | Some i => exists v, nth_error xs i = Some v /\ not_none v = true /\
+      (forall j w, nth_error xs j = Some w -> not_none w = true -> (unwrap w <? unwrap v)%float = false) /\
+      (forall j w, j < i -> nth_error xs j = Some w -> not_none w = true -> (unwrap v <? unwrap w)%float = true)
+  end /\
+  match vargmax xs with
+  | None => vals xs = []
+  | Some i => exists v, nth_error xs i = Some v /\ not_none v = true /\
+      (forall j w, nth_error xs j = Some w -> not_none w = true -> (unwrap v <? unwrap w)%float = false) /\
+      (forall j w, j < i -> nth_error xs j = Some w -> not_none w = true -> (unwrap w <? unwrap v)%float = true)
+  end.
+Proof. intros T DT xs H. apply (vargmin_vargmax_binary64 H). Qed.
+Theorem C11_perm_extrema_binary64 : forall {T} {DT : IsNone T PrimFloat.float} (xs ys : list T),
+  valid_ok xs -> Permutation xs ys ->
+  match vmin xs, vmin ys with
+  | None, None => True | Some a, Some b => (a =? b)%float = true | _, _ => False end /\
+  match vmax xs, vmax ys with
+  | None, None => True | Some a, Some b => (a =? b)%float = true | _, _ => False end.
+Proof. intros T DT xs ys H HP. apply (vmin_vmax_perm_binary64 H HP). Qed.
+(* "invariant under any permutation" is FALSE bit for bit at binary64: [+0; -0] vs [-0; +0] (equal as numbers) *)
+Theorem C11_perm_extrema_bitwise_refuted :
+  exists xs ys : list PrimFloat.float, Permutation xs ys /\
+    vmin (DT := IsNoneF64) xs <> vmin (DT := IsNoneF64) ys /\ vmax (DT := IsNoneF64) xs <> vmax (DT := IsNoneF64) ys.
+Proof. exact vmin_perm_bitwise_refuted. Qed.
+
+(* ---- (A4) the plain family (AggBasic) ---------------------------------------------------------------------------- *)
+Theorem C11_plain_first_last : forall {X} (xs : list X),
+  first xs = hd_error xs /\ last xs = hd_error (rev xs) /\ (first xs = None <-> xs = []) /\ (last xs = None <-> xs = []).
+Proof. intros. apply plain_first_last. Qed.
+Theorem C11_plain_n_sum : forall {A} {NA : Num A} (xs : list A),
+  n_sum xs = (length xs, if (length xs =? 0)%nat then None else Some (fold_left nadd xs nzero)) /\
+  sum xs = snd (n_sum xs).
+Proof. intros. apply n_sum_spec. Qed.
+Theorem C11_vfirst_vlast_are_plain : forall {A T} {DT : IsNone T A} (xs : list T),
+  vfirst xs = first (valid_elems xs) /\ vlast xs = last (valid_elems xs).
+Proof. intros. apply vfirst_vlast_are_plain. Qed.
+Theorem C11_plain_arg_ordered_carrier : forall {A} {NA : Num A}, OrdLaws A -> forall l : list A,
+  Forall num_ok l ->
+  match argmin l with
+  | None => l = []
+  | Some i => exists m, nth_error l i = Some m /\
+      (forall j x, nth_error l j = Some x -> nltb x m = false) /\
+      (forall j x, j < i -> nth_error l j = Some x -> nltb m x = true)
+  end /\
+  match argmax l with
+  | None => l = []
+  | Some i => exists m, nth_error l i = Some m /\
+      (forall j x, nth_error l j = Some x -> nltb m x = false) /\
+      (forall j x, j < i -> nth_error l j = Some x -> nltb x m = true)
+  end.
+Proof. intros A NA OL l H. apply (plain_arg_ord OL H). Qed.
+Theorem C11_plain_argmax_f64 : forall V : list R,
+  match argmax (map Some V) with
+  | None => V = []
+  | Some i => exists r, nth_error V i = Some r /\
+      (forall j x, nth_error V j = Some x -> (x <= r)%R) /\
+      (forall j x, j < i -> nth_error V j = Some x -> (x < r)%R)
+  end.
+Proof. exact plain_argmax_float. Qed.
+Theorem C11_plain_arg_int : forall l : list Z,
+  match argmin (NA := AggNumZ) l with
+  | None => l = []
+  | Some i => exists m, nth_error l i = Some m /\
+      (forall j x, nth_error l j = Some x -> (m <= x)%Z) /\
+      (forall j x, j < i -> nth_error l j = Some x -> (m < x)%Z)
+  end /\
+  match argmax (NA := AggNumZ) l with
+  | None => l = []
+  | Some i => exists m, nth_error l i = Some m /\
+      (forall j x, nth_error l j = Some x -> (x <= m)%Z) /\
+      (forall j x, j < i -> nth_error l j = Some x -> (x < m)%Z)
+  end.
+Proof. exact plain_arg_int. Qed.
+(* AggBasic::min / max on ANY float series (NaN is an ordinary value for the plain family): a leading NaN is the
+   result, a later NaN is skipped — the "null-free" hypothesis of C11_plain_min_max_f64 replaced by the full description *)
+Theorem C11_plain_min_max_with_nan : forall l : list XR,
+  match l with
+  | [] => pmin l = None /\ pmax l = None
+  | None :: _ => pmin l = Some None /\ pmax l = Some None
+  | Some r :: t => pmin l = Some (Some (fold_left Rmin (valid t) r)) /\ pmax l = Some (Some (fold_left Rmax (valid t) r))
+  end.
+Proof. exact plain_min_max_with_nan. Qed.
+
+(* ---- (A5) two series and masks: zip truncation; permuting the (value, flag) pairs --------------------------------- *)
+Theorem C11_two_series_truncate :
+  forall {A} {NA : Num A} {T T2} {DT : IsNone T A} {DT2 : IsNone T2 A} {F} {NF : Num F} (tof : A -> F)
+         {U} {DU : IsNone U bool} (mp : nat) (xs : list T) (ys : list T2) (mask : list U),
+  let n := Nat.min (length xs) (length ys) in let k := Nat.min (length xs) (length mask) in
+  vcov tof mp xs ys = vcov tof mp (firstn n xs) (firstn n ys) /\
+  vcorr_pearson tof mp xs ys = vcorr_pearson tof mp (firstn n xs) (firstn n ys) /\
+  mask_filter xs mask = mask_filter (firstn k xs) (firstn k mask).
+Proof. intros. apply two_series_truncate. Qed.
+Theorem C11_masked_perm_float : forall {T} {DT : IsNone T XR} {U} {DU : IsNone U bool} (mp : nat)
+    (xs xs' : list T) (mask mask' : list U),
+  canonical idX xs -> canonical idX xs' -> Permutation (combine xs mask) (combine xs' mask') ->
+  n_sum_filter xs mask = n_sum_filter xs' mask' /\ vmean_filter idX mp xs mask = vmean_filter idX mp xs' mask' /\
+  fst (n_vsum_filter xs mask) = fst (n_vsum_filter xs' mask').
+Proof.
+  intros T DT U DU mp xs xs' mask mask' H H' HP. destruct (masked_perm_float mp mask mask' H H' HP) as [a b].
+  split; [exact a|]. split; [exact b|]. apply (masked_count_perm (NA := NumXR) xs xs' mask mask' HP).
+Qed.
+Theorem C11_masked_perm_int : forall {T} {DT : IsNone T Z} {U} {DU : IsNone U bool} (mp : nat)
+    (xs xs' : list T) (mask mask' : list U),
+  Permutation (combine xs mask) (combine xs' mask') ->
+  n_sum_filter (NA := AggNumZ) xs mask = n_sum_filter (NA := AggNumZ) xs' mask' /\
+  vmean_filter (NA := AggNumZ) zR mp xs mask = vmean_filter (NA := AggNumZ) zR mp xs' mask'.
+Proof. intros T DT U DU mp xs xs' mask mask' HP. apply (masked_perm_int mp xs xs' mask mask' HP). Qed.
+
+(* ---- (A6) nullness for EVERY carrier; non-canonical input ------------------------------------------------------------ *)
+(* fewer valid observations than required => null: decided by the count alone, so for every carrier (binary64 included),
+   every dictionary, every cast, canonical or not.  (The converse is carrier specific: C11_nullness_single / _two.) *)
+Theorem C11_null_below_any_carrier :
+  forall {A} {NA : Num A} {T} {DT : IsNone T A} {F} {NF : Num F} (tof : A -> F),
+  @nisnan F NF nnan = true -> forall (mp : nat) (xs : list T),
+  (count_valid xs = 0 -> vsum xs = None /\ vmean tof xs = nnan /\ vmin xs = None /\ vmax xs = None /\
+                         vargmin xs = None /\ vargmax xs = None /\ vfirst xs = None /\ vlast xs = None) /\
+  (count_valid xs < Nat.max mp 2 -> vvar tof mp xs = nnan /\ vstd tof mp xs = nsqrt nnan) /\
+  (count_valid xs < Nat.max mp 3 -> vskew tof mp xs = nnan) /\
+  (count_valid xs < Nat.max mp 4 -> vkurt tof mp xs = nnan).
+Proof. intros A NA T DT F NF tof H mp xs. apply (null_below_single tof H). Qed.
+Theorem C11_null_below_two_any_carrier :
+  forall {A T T2} {DT : IsNone T A} {DT2 : IsNone T2 A} {F} {NF : Num F} (tof : A -> F) (mp : nat) (xs : list T) (ys : list T2),
+  npairs xs ys < Nat.max mp 2 -> vcov tof mp xs ys = nnan /\ vcorr_pearson tof mp xs ys = nnan.
+Proof. intros A T T2 DT DT2 F NF tof mp xs ys H. apply (null_below_two tof mp xs ys H). Qed.
+(* the quantifier's min_periods = len + 1 (and anything above): null whatever the data *)
+Theorem C11_min_periods_above_length :
+  forall {A} {NA : Num A} {T} {DT : IsNone T A} {F} {NF : Num F} (tof : A -> F),
+  @nisnan F NF nnan = true -> forall (mp : nat) (xs : list T), length xs < mp ->
+  vvar tof mp xs = nnan /\ vstd tof mp xs = nsqrt nnan /\ vskew tof mp xs = nnan /\ vkurt tof mp xs = nnan /\
+  vmean_var tof mp xs = (nnan, nnan).
+Proof. intros A NA T DT F NF tof H mp xs L. apply min_periods_above_length; assumption. Qed.
+Theorem C11_null_below_binary64 : forall {A} {NA : Num A} {T} {DT : IsNone T A} (tof : A -> PrimFloat.float) (mp : nat) (xs : list T),
+  (count_valid xs = 0 -> vsum xs = None /\ PrimFloat.is_nan (vmean tof xs) = true /\ vmin xs = None /\ vmax xs = None /\
+                         vargmin xs = None /\ vargmax xs = None /\ vfirst xs = None /\ vlast xs = None) /\
+  (count_valid xs < Nat.max mp 2 -> PrimFloat.is_nan (vvar tof mp xs) = true /\ PrimFloat.is_nan (vstd tof mp xs) = true) /\
+  (count_valid xs < Nat.max mp 3 -> PrimFloat.is_nan (vskew tof mp xs) = true) /\
+  (count_valid xs < Nat.max mp 4 -> PrimFloat.is_nan (vkurt tof mp xs) = true).
+Proof. intros. apply null_below_binary64. Qed.
+Theorem C11_null_below_two_binary64 :
+  forall {A T T2} {DT : IsNone T A} {DT2 : IsNone T2 A} (tof : A -> PrimFloat.float) (mp : nat) (xs : list T) (ys : list T2),
+  npairs xs ys < Nat.max mp 2 ->
+  PrimFloat.is_nan (vcov tof mp xs ys) = true /\ PrimFloat.is_nan (vcorr_pearson tof mp xs ys) = true.
+Proof. intros A T T2 DT DT2 tof mp xs ys H. apply (null_below_two_binary64 tof mp xs ys H). Qed.
+
+(* non-canonical input (excluded by DESIGN 5.4 — this is what the code does there): a VALID element whose value is NaN,
+   i.e. Some(NaN) in an Option<f64> series, counts as an observation and poisons sum, mean, variance *)
+Theorem C11_valid_nan_poisons : forall {T} {DT : IsNone T XR} (mp : nat) (xs : list T),
+  In None (vals xs) ->
+  vsum xs = Some None /\ vmean idX xs = None /\ vmean_var idX mp xs = (None, None) /\
+  vvar idX mp xs = None /\ vstd idX mp xs = None /\ 1 <= count_valid xs.
+Proof. intros T DT mp xs H. apply (valid_nan_poisons mp xs H). Qed.
+
+(* ---- (A7) accumulating with Number::n_add at binary64 = the vsum fold: the rounding bound (R2) covers it ----------- *)
+Theorem C11_n_add_fold_binary64 : forall xs : list PrimFloat.float,
+  n_add_fold (DN := IsNoneF64) zero xs = (ffold zero (fvals xs), length (fvals xs)).
+Proof. exact n_add_fold_binary64. Qed.
+Theorem C11_n_add_fold_binary64_error : forall xs : list PrimFloat.float,
+  ffin (fst (n_add_fold (DN := IsNoneF64) zero xs)) = true ->
+  (Rabs (f2r (fst (n_add_fold (DN := IsNoneF64) zero xs)) - sumR (rvals64 xs))
+   <= gam u64 (length (rvals64 xs)) * sumabs (rvals64 xs))%R.
+Proof. exact n_add_fold_binary64_error. Qed.
+
+(* ---- (A8) f64::floor / ceil as executed by the correspondence run (Run/RunC11.v) ----------------------------------- *)
+Theorem C11_f64_floor_shape : forall x : PrimFloat.float,
+  match Prim2SF x with
+  | S754_finite s m e =>
+      if (0 <=? e)%Z then Run.RunC11.f64_floor x = x
+      else Run.RunC11.f64_floor x =
+           (if (Run.RunC11.f64_floorZ x =? 0)%Z then (if s then neg_zero else zero) else f64_ofZ (Run.RunC11.f64_floorZ x))
+  | _ => Run.RunC11.f64_floor x = x
+  end /\ Run.RunC11.f64_ceil x = (- Run.RunC11.f64_floor (- x))%float.
+Proof. exact f64_floor_shape. Qed.
+
+(* ... and it IS the mathematical floor / ceiling of the real value, for every finite float (Proofs/Audit11Floor.v: Flocq's
+   Prim2B / B2R, the mantissa bound from `bounded`, exact conversion of integers below 2^53); NaN / infinities unchanged *)
+From Tevec Require Proofs.Audit11Floor.
+Theorem C11_f64_floor_is_floor : forall x : PrimFloat.float, ffin x = true ->
+  ffin (Run.RunC11.f64_floor x) = true /\ f2r (Run.RunC11.f64_floor x) = IZR (Flocq.Core.Raux.Zfloor (f2r x)).
+Proof. exact Proofs.Audit11Floor.f64_floor_spec. Qed.
+Theorem C11_f64_ceil_is_ceil : forall x : PrimFloat.float, ffin x = true ->
+  ffin (Run.RunC11.f64_ceil x) = true /\ f2r (Run.RunC11.f64_ceil x) = IZR (Flocq.Core.Raux.Zceil (f2r x)).
+Proof. exact Proofs.Audit11Floor.f64_ceil_spec. Qed.
+Example C11_ex_floor_premise :
+  (ffin (-2.5)%float = true) /\ (Run.RunC11.f64_floor (-2.5)%float = (-3)%float) /\
+  (Run.RunC11.f64_ceil (-2.5)%float = (-2)%float) /\
+  (Run.RunC11.f64_floor 4503599627370496%float = 4503599627370496%float) /\
+  (PrimFloat.is_nan (Run.RunC11.f64_floor nan) = true).
+Proof. repeat split; vm_compute; reflexivity. Qed.
+
+(* ---- non-vacuity of the audit's implications ----------------------------------------------------------------------- *)
+Example C11_ex_audit_number :
+  n_add (DN := IsNoneXR) (Some 1%R) None 3 = (Some 1%R, 3) /\ n_add (DN := IsNoneXR) None (Some 1%R) 3 = (None, 4) /\
+  n_add_fold (NA := AggNumZ) (DN := IsNone_plain) 0%Z [1; 2; 3]%Z = (6%Z, 3) /\
+  n_prod_fold (NA := AggNumZ) (DN := IsNone_plain) 1%Z [1; 2; 3]%Z = (6%Z, 3) /\
+  kh_fold (NA := AggNumZ) [1; 2; 3]%Z = (6%Z, 0%Z) /\ In None [Some 1%R; None] /\
+  unwrap_id (@IsNone_float XR NumXR) /\ unwrap_id (@IsNone_plain Z).
+Proof.
+  split; [reflexivity|]. split; [reflexivity|]. split; [reflexivity|]. split; [reflexivity|]. split; [reflexivity|].
+  split; [right; left; reflexivity|]. split; [apply unwrap_id_float|apply unwrap_id_plain].
+Qed.
+Example C11_ex_audit_ordered :
+  valid_ok (DT := IsNoneF64) [1%float; nan; (-0)%float] /\ @num_ok _ NumF64 1%float /\ @num_ok XR NumXR (Some 1%R) /\
+  vargmin (DT := IsNoneF64) [2%float; nan; 1%float; 1%float] = Some 2 /\
+  vmin (DT := IsNoneF64) [2%float; nan; 1%float; 1%float] = Some 1%float /\
+  Permutation [0%float; (-0)%float] [(-0)%float; 0%float] /\ Forall (@num_ok Z AggNumZ) [3; 1; 2]%Z.
+Proof.
+  split; [apply valid_ok_f64|]. split; [reflexivity|]. split; [reflexivity|]. split; [reflexivity|]. split; [reflexivity|].
+  split; [apply perm_swap|repeat constructor].
+Qed.
+Example C11_ex_audit_masked_perm_premise :
+  Permutation (combine [Some 1%R; None; Some 3%R] [true; true; false]) (combine [None; Some 3%R; Some 1%R] [true; false; true]).
+Proof.
+  cbn [combine]. apply Permutation_trans with (l' := [(None, true); (Some 1%R, true); (Some 3%R, false)]); [apply perm_swap|].
+  apply perm_skip, perm_swap.
+Qed.
+Example C11_ex_audit_null_premises :
+  count_valid (DT := IsNoneXR) [None; Some 1%R] < Nat.max 0 2 /\ npairs (DT := IsNoneXR) (DT2 := IsNoneXR) [Some 1%R; None] [None; Some 2%R] < Nat.max 0 2 /\
+  length [Some 1%R; Some 2%R] < 3 /\ @nisnan XR NumXR nnan = true /\ @nisnan _ NumF64 nnan = true /\
+  In None (vals (DT := IsNoneOptXR) [Some (Some 1%R); Some None; None]).
+Proof.
+  split; [cbn; lia|]. split; [cbn; lia|]. split; [cbn; lia|]. split; [reflexivity|]. split; [reflexivity|].
+  cbn. right. left. reflexivity.
+Qed.
+
 Print Assumptions C11_round_sum_fold.
 Print Assumptions C11_vsum_binary64_error.
 Print Assumptions C11_vsum_binary64_error_linear.
@@ -632,3 +1063,52 @@ Print Assumptions C11_vmean_binary64_error_linear.
 Print Assumptions C11_vmean_binary64_error_normal.
 Print Assumptions C11_vmean_float_vs_exact_model.
 Print Assumptions C11_vmean_finite_certifies.
+Print Assumptions C11_number_n_add_n_prod.
+Print Assumptions C11_number_n_add_fold.
+Print Assumptions C11_number_n_add_fold_is_vsum.
+Print Assumptions C11_number_kh_sum_exact.
+Print Assumptions C11_number_kh_sum_nan.
+Print Assumptions C11_number_kh_sum_binary64.
+Print Assumptions C11_number_kh_sum_binary64_witness.
+Print Assumptions C11_number_floor_ceil.
+Print Assumptions C11_number_min_max_with.
+Print Assumptions C11_number_min_max_with_nan.
+Print Assumptions C11_number_min_max_with_nan_f64.
+Print Assumptions C11_number_min_max_with_ordered.
+Print Assumptions C11_number_min_max_with_binary64.
+Print Assumptions C11_ordered_carriers.
+Print Assumptions C11_number_to_fromas.
+Print Assumptions C11_vfold2.
+Print Assumptions C11_vapply.
+Print Assumptions C11_vcov_is_vfold2.
+Print Assumptions C11_arg_points_at_extreme_unconditional.
+Print Assumptions C11_extrema_ordered_carrier.
+Print Assumptions C11_arg_extrema_ordered_carrier.
+Print Assumptions C11_perm_extrema_ordered_carrier.
+Print Assumptions C11_valid_ok_f64.
+Print Assumptions C11_valid_ok_optf64.
+Print Assumptions C11_vmin_vmax_binary64.
+Print Assumptions C11_vargmin_vargmax_binary64.
+Print Assumptions C11_perm_extrema_binary64.
+Print Assumptions C11_perm_extrema_bitwise_refuted.
+Print Assumptions C11_plain_first_last.
+Print Assumptions C11_plain_n_sum.
+Print Assumptions C11_vfirst_vlast_are_plain.
+Print Assumptions C11_plain_arg_ordered_carrier.
+Print Assumptions C11_plain_argmax_f64.
+Print Assumptions C11_plain_arg_int.
+Print Assumptions C11_plain_min_max_with_nan.
+Print Assumptions C11_two_series_truncate.
+Print Assumptions C11_masked_perm_float.
+Print Assumptions C11_masked_perm_int.
+Print Assumptions C11_null_below_any_carrier.
+Print Assumptions C11_null_below_two_any_carrier.
+Print Assumptions C11_min_periods_above_length.
+Print Assumptions C11_null_below_binary64.
+Print Assumptions C11_null_below_two_binary64.
+Print Assumptions C11_valid_nan_poisons.
+Print Assumptions C11_n_add_fold_binary64.
+Print Assumptions C11_n_add_fold_binary64_error.
+Print Assumptions C11_f64_floor_shape.
+Print Assumptions C11_f64_floor_is_floor.
+Print Assumptions C11_f64_ceil_is_ceil.
